@@ -251,20 +251,27 @@ def rule_cut(ctx, F):
     # predicates
     zc = _body(F, r"^dnssec::sign::records::OwnerRrs::<'a, N, D>::is_zone_cut$")
     if ctx.anchor(R, "OwnerRrs::is_zone_cut", zc):
-        ne = [t for _, t in zc.calls() if re.search(r"PartialEq(<.*>)?::(ne|eq)$", t["fn"] or "")]
-        anyc = [t for _, t in zc.calls() if re.search(r"Iterator::any$", t["fn"] or "")]
-        nsv = False
-        for bi, cb, ops in closures_created_in(F, zc):
-            for blk in cb.blocks:
-                for st in blk["s"]:
-                    if st[0] == "=" and st[2][0] == "bin" and st[2][1] == "Eq":
-                        pass
-            for _, t in cb.calls():
-                if re.search(r"PartialEq(<.*>)?::eq$", t["fn"] or "") and any(
-                        _is_rtype(cb.term_of_operand(a), NS, _rtype_consts(F)) for a in t["args"]):
-                    nsv = True
-        ctx.ob(R, zc, "a cut is an owner other than the apex with an NS RRset", bool(ne) and bool(anyc) and nsv,
-               "is_zone_cut must be `owner != apex && any record has type NS`")
+        import sigs
+        names = _rtype_consts(F)
+        deep = sigs.callees_deep(F, zc, depth=2)
+        ne = [t for _, _, t in deep if re.search(r"PartialEq(<.*>)?::(ne|eq)$", t["fn"] or "")]
+        # which record types the predicate looks at (in its body, its closures and helpers it calls)
+        seen = set()
+        bodies = {id(sb): sb for sb, _, _ in deep}
+        bodies[id(zc)] = zc
+        for sb in bodies.values():
+            for op in __import__("mirlib").iter_operands(sb):
+                if op[0] == "k":
+                    cv = op[2]
+                    dp = op[3] if len(op) > 3 else None
+                    for n_, v_ in names.items():
+                        if (isinstance(dp, str) and dp.endswith("Rtype::" + n_)) or (isinstance(cv, int) and not isinstance(cv, bool) and cv == v_ and op[1] in ("u16", "base::iana::rtype::Rtype")):
+                            seen.add(n_)
+        owner_apex = any(any(s == ("arg", 2) for a in t["args"] for s in walk(deep_strip(sb.term_of_operand(a)))) for sb, _, t in deep
+                         if re.search(r"PartialEq(<.*>)?::(ne|eq)$", t["fn"] or "") and sb is zc)
+        ctx.ob(R, zc, "a cut is an owner other than the apex with an NS RRset", owner_apex and seen == {"NS"},
+               "is_zone_cut must be `owner != apex && some record has type NS` and look at no other record type (types "
+               "examined: %s, owner compared with the apex: %s)" % (sorted(seen), owner_apex))
     iz = _body(F, r"^dnssec::sign::records::OwnerRrs::<'a, N, D>::is_in_zone$")
     if ctx.anchor(R, "OwnerRrs::is_in_zone", iz):
         ew = [t for _, t in iz.calls() if re.search(r"::ends_with$", t["fn"] or "")]
@@ -395,41 +402,47 @@ def rule_optout(ctx, F):
     flag = [bb for bb, t in c.calls() if re.search(r"Nsec3param::<.*>::opt_out_flag$", t["fn"] or "")]
     ctx.ob(R, c, "the exclusion is tied to the opt-out flag of the parameters", bool(flag),
            "generate_nsec3s no longer reads params.opt_out_flag(): owners would be excluded (or kept) regardless of opt-out")
-    # the exclusion edge: a `continue` (jump back to the loop head) that bypasses mk_nsec3, controlled by has_ds
+    # the exclusion edge: after the cut has been decided for this owner, a switch edge that goes back to the walk's loop
+    # head without reaching the record construction (mk_nsec3).  Found by shape, not by names.
     cyc = cyclic_blocks(c)
-    anys = [bb for bb, t in c.calls() if re.search(r"Iterator::any$", t["fn"] or "") and bb in cyc]
     mks = [bb for bb, t in c.calls() if re.search(r"nsec3::mk_nsec3$", t["fn"] or "") and bb in cyc]
-    ok = False
-    for mk in mks:
-        fs = bool_facts(c, mk, F)
-        # on the way to mk_nsec3 nothing forces has_ds; but the skip edge requires: flag true, cut Some, has_ds false.
-        pass
-    # find switch blocks testing the `any` result (has_ds) whose false/true edge skips mk_nsec3
+    zc = [bb for bb, t in c.calls() if re.search(r"OwnerRrs::<.*>::is_zone_cut$", t["fn"] or "")]
     heads = [h for h, th in c.calls() if re.search(r"Iterator::next$", th["fn"] or "") and h in cyc]
-    # the walk over the owners: the loop head that dominates the other loop heads leading to mk_nsec3
     lead = [h for h in heads if any(m in c.reach_from(h) for m in mks)]
     outer = [h for h in lead if all(h == o or c.dominates(h, o) for o in lead)]
-    heads = outer or heads
+    if not ctx.anchor(R, "walk loop, is_zone_cut and mk_nsec3 in generate_nsec3s", len(outer) == 1 and bool(zc) and bool(mks), c.where()):
+        return
+    head = outer[0]
+    per_owner = [m for m in mks if c.dominates(zc[0], m)]
+    after_zc = c.reach_from(zc[0], removed_blocks=[head])
+    bf = BranchFacts(c, F)
     skips = []
-    for sw in sorted(c.reachable_blocks()):
+    for sw in sorted(after_zc):
         t = c.blocks[sw]["t"]
         if t["k"] != "switch" or sw not in cyc:
             continue
-        d = deep_strip(c.term_of_operand(t["d"]))
-        if not (d[0] == "call" and d[5] in anys) and not (d[0] == "un" and deep_strip(d[2])[0] == "call" and deep_strip(d[2])[5] in anys):
-            continue
         for s, lab in c.succs(sw):
-            r = c.reach_from(s, removed_blocks=heads)
-            if mks and not any(m in r for m in mks):
-                ef = BranchFacts(c, F).edge_facts(sw).get(lab)
-                skips.append((sw, lab, ef))
-    ctx.anchor(R, "opt-out skip edge (has_ds decides)", len(skips) >= 1, c.where())
-    for sw, lab, ef in skips:
-        no_ds = ef is not None and ef[1] is False
-        fs = bool_facts(c, sw, F)
-        flag_true = any(vv is True and not (tt[0] == "call" and tt[5] in anys) for tt, vv in fs)
-        cut_some = any("is_some" in show(tt) and vv is True or "is_none" in show(tt) and vv is False for tt, vv in fs) or \
-            any(isinstance(vv, tuple) and vv == ("variant", "Some") for tt, vv, e in facts_at(c, sw, F))
+            r = c.reach_from(s, removed_blocks=per_owner)
+            # leaves this owner: reaches the loop head again without building a record, and is not an error return path
+            fwd = c.reach_from(s, removed_blocks=[head])
+            if head in r and not any(m in fwd for m in per_owner) and not any(c.dominates(m, sw) for m in per_owner):
+                skips.append((sw, lab))
+    # keep the outermost decision only (the edge whose switch is not itself reached only through another skip edge)
+    skips = [(sw, lab) for sw, lab in skips if not any(sw in c.reach_from(c.edge_target(s2, l2), removed_blocks=[head]) for s2, l2 in skips if (s2, l2) != (sw, lab))] or skips
+    ctx.anchor(R, "opt-out skip edge", len(skips) >= 1, c.where())
+    for sw, lab in skips:
+        tgt = c.edge_target(sw, lab)
+        # everything known on that edge: dominating facts of the switch plus the edge's own fact
+        facts = [(deep_strip(tt), vv) for tt, vv, e in facts_at(c, sw, F)]
+        ef = bf.edge_facts(sw).get(lab)
+        if ef:
+            facts.append((deep_strip(ef[0]), ef[1]))
+        txt = [(show(tt), vv) for tt, vv in facts]
+        flag_true = any(vv is True and ("opt_out" in s) for s, vv in txt) or \
+            any(vv is True and tt[0] in ("phi", "local") for tt, vv in facts)
+        cut_some = any(("is_some" in s and vv is True) or ("is_none" in s and vv is False) for s, vv in txt) or \
+            any(isinstance(vv, tuple) and vv == ("variant", "Some") for tt, vv in facts)
+        no_ds = any(vv is False and (("any(" in s) or tt[0] in ("phi", "local")) for (tt, vv), (s, _) in zip(facts, txt))
         ctx.ob(R, c, "excluded only when opt-out is on, the owner is a cut, and it has no DS", no_ds and flag_true and cut_some,
                "the opt-out exclusion in generate_nsec3s is taken without all three conditions (flag %s, cut %s, no DS %s): "
                "secure delegations or ordinary names would disappear from the chain" % (flag_true, cut_some, no_ds), c.where(sw))
